@@ -183,7 +183,16 @@ fn points_and_promises_case<P: G>(cfg: Cfg) -> Box<dyn Case> {
     })
 }
 
-const BK: [&str; 7] = ["honest", "honest-m2", "honest-c4", "hostile-degree", "hostile-rounds", "hostile-undecodable", "hostile-identity"];
+const BK: [&str; 8] = [
+    "honest",
+    "honest-m2",
+    "honest-c4",
+    "hostile-degree",
+    "hostile-rounds",
+    "hostile-undecodable",
+    "hostile-identity",
+    "hostile-narrow-proof-for-wide-statement",
+];
 
 /// (E) batches of 1..3 members mixing shapes and capacities in every order; members share parameter objects by clone
 /// and every single-commitment member carries a seed
@@ -199,7 +208,7 @@ fn batch_case<P: G>(d: usize, seq: Vec<usize>) -> Box<dyn Case> {
         let mut ctxs = Vec::new();
         for (pos, k) in seq.iter().enumerate() {
             let kind = BK[*k];
-            let m = if kind == "honest-m2" { 2 } else { 1 };
+            let m = if kind == "honest-m2" || kind == "hostile-narrow-proof-for-wide-statement" { 2 } else { 1 };
             let cfg = Cfg::new(n, m, 4, d);
             let mut wit = Wit::default_for(&cfg);
             for j in 0..m {
@@ -227,6 +236,11 @@ fn batch_case<P: G>(d: usize, seq: Vec<usize>) -> Box<dyn Case> {
                     let (l, r) = (rp.l[0], rp.r[0]);
                     rp.l.push(l);
                     rp.r.push(r);
+                },
+                "hostile-narrow-proof-for-wide-statement" => {
+                    // the round count of a single-commitment proof attached to a 2-commitment statement
+                    rp.l.pop();
+                    rp.r.pop();
                 },
                 "hostile-undecodable" => rp.l[0] = [0xffu8; 32],
                 "hostile-identity" => rp.b = [0u8; 32],
@@ -328,6 +342,47 @@ fn decode_cases() -> Vec<Box<dyn Case>> {
     cases
 }
 
+/// (G) a validly constructed statement with a very large aggregation factor (capacity 512 / 1024)
+fn huge_aggregation_case<P: G>(m: usize) -> Box<dyn Case> {
+    case(format!("{}/huge-aggregation/m={}", P::NAME, m), move |_v| {
+        fg::clear_intern();
+        let mut res = CaseResult::new("explored");
+        let cfg = Cfg::new(1, m, m, 1);
+        let wit = Wit::default_for(&cfg);
+        let built = match catch(|| build::<P>(&cfg, &wit)) {
+            Ok(Ok(b)) => b,
+            other => {
+                res.violate("construct", format!("constructors failed / panicked for aggregation {}: {:?}", m, other.map(|r| r.map(|_| ()).map_err(|e| crate::api::err_name(&e)))));
+                return res;
+            },
+        };
+        let proof = match catch(|| lib_prove(&built, &CTX_A, &mut HRng::chacha(17))) {
+            Ok(Ok(p)) => p,
+            Ok(Err(_)) => {
+                res.outcome = "prover-refused(noted)".into();
+                return res;
+            },
+            Err(p) => {
+                res.violate("prove", format!("prover panicked: {}", p));
+                return res;
+            },
+        };
+        for mode in MODES {
+            let (obs, _) = measured_verify(std::slice::from_ref(&built.statement), std::slice::from_ref(&proof), &[CTX_A], mode);
+            expect_no_panic(&obs, mode_name(mode), &mut res);
+        }
+        // and a hostile proof for it
+        let bytes = shape_proof_bytes::<P>(1, 3, &built.params.h_base().g_compress());
+        if let Ok(Ok(p2)) = catch(|| P::from_bytes(&bytes)) {
+            for mode in MODES {
+                let (obs, _) = measured_verify(std::slice::from_ref(&built.statement), std::slice::from_ref(&p2), &[CTX_A], mode);
+                expect_no_panic(&obs, &format!("hostile/{}", mode_name(mode)), &mut res);
+            }
+        }
+        res
+    })
+}
+
 pub fn build_cases(tier: Tier) -> Vec<Box<dyn Case>> {
     let mut cases = decode_cases();
     for cfg in lattice(tier.thorough()) {
@@ -356,6 +411,12 @@ pub fn build_cases(tier: Tier) -> Vec<Box<dyn Case>> {
             frontier = next;
         }
     }
+    for m in [512usize, 1024] {
+        cases.push(huge_aggregation_case::<F>(m));
+        if m == 512 {
+            cases.push(huge_aggregation_case::<RistrettoPoint>(m));
+        }
+    }
     for layout in ["big-first", "big-at-255", "big-last", "big-first-and-last", "uniform"] {
         cases.push(long_batch_case::<F>(layout));
         cases.push(long_batch_case::<RistrettoPoint>(layout));
@@ -368,8 +429,9 @@ pub fn run(rep: &mut Report) {
                 every first byte and inputs up to 3.2 MB through the decoder; (B) statement shapes of the lattice x proof shapes (degree \
                 1..6 x rounds {1..log2(n*c)+2, 31, 32, 63, 64, 70, 1000}) x 3 modes, seeded; (C) identity / undecodable / wrong point at \
                 every point position, dropped / duplicated rounds; (D) promises {2^n-1, 2^n, u64::MAX}; (E) every batch of 1..3 members \
-                over {honest, honest m=2, honest other capacity, wrong degree tag, extra round, undecodable point, identity point} sharing \
-                one cloned parameter object, seeded, 3 modes; (F) 257-member batches whose largest member sits in one chunk; oracle: Ok or \
+                over {honest, honest m=2, honest other capacity, wrong degree tag, extra round, undecodable point, identity point, a narrow \
+                proof attached to a wide statement} sharing \
+                one cloned parameter object, seeded, 3 modes; (F) 257-member batches whose largest member sits in one chunk; (G) statements with aggregation 512 / 1024; oracle: Ok or \
                 Err, never a panic / abort; group operations and allocator bytes bounded by 4x the honest verification plus a per-element term"
         .into();
     rep.assume("cost is measured as group operations (free-module backend) and bytes requested from the allocator, not wall time");
